@@ -119,7 +119,19 @@ def run(rep, tier):
                 y['kind'] == 'DeclRefExpr' and (y.get('referencedDecl') or {}).get('id') in aliases for y in walk(e))
         direct = [c for c in cast.calls_in(ld.body) if callee_of(c)[1] == 'read' and is_mem(cast.call_args(c)[0])]
         zeroed = [c for c in cast.calls_in(ld.body) if callee_of(c)[1] in ('memset', 'fill', 'fill_n') and any(is_mem(a_) for a_ in cast.call_args(c))]
-        if direct and not zeroed:
+        same_count = False
+        if direct and zeroed:
+            order = {id(n_): k_ for k_, n_ in enumerate(walk(ld.body))}
+            rc = cast.decl_ref(cast.call_args(direct[0])[1])
+            for z in zeroed:
+                za = cast.call_args(z)
+                zc = cast.decl_ref(za[-1]) if za else None
+                if order[id(z)] < order[id(direct[0])] and rc is not None and zc == rc:
+                    same_count = True
+        if direct and zeroed and same_count and len(direct) == 1:
+            rep.add('R3', 'load:image-at-word-0', True, pos(direct[0]) + ' load (hextb.cpp)',
+                    'the target range is zeroed (same byte count) before the file is read straight into the DUT memory at word 0')
+        elif direct and not zeroed:
             rep.add('R3', 'load:image-at-word-0', False, pos(direct[0]) + ' load (hextb.cpp)',
                     'the file is read straight into the DUT memory, which holds randomised power-on values: the bytes of the last image word '
                     'that the file does not cover (its length is not a multiple of 4: symbol names follow the image) are never written')
